@@ -54,7 +54,16 @@ Wrappable(ops) == /\ CollectorBalanced(ops)
                   /\ BalancedFor(ops, StructOpens, StructCloses)
                   /\ BalancedFor(ops, SectOpens, SectCloses)
 
-\* the wrap:  vwrap MACRO {GLOBALSYMBOLS} / lines / ENDM / vwrap
+\* The wrap with a plain `vwrap MACRO` (no control parameter) makes the labels of the wrapped lines local to the
+\* wrapper's expansion (manual: "Labels defined in macros always are regarded as being local, unless GLOBALSYMBOLS
+\* was used"; what that means for references from nested expansions: SymScope.tla).  It is the same program only if
+\* nothing outside the wrapped lines refers to their labels - the WHOLE main file is wrapped - and if no statement of
+\* the run, at any depth (include files, expansions), opens a SECTION: "the locality of labels inside macros is not
+\* influenced by sections", i.e. section-local symbols of the same name would collapse / be shadowed.
+\*   ops = the main file's statements, run = the set of statement names executed anywhere in the run
+LocalWrappable(ops, run) == Wrappable(ops) /\ run \cap SectOpens = {}
+
+\* the wrap:  vwrap MACRO {GLOBALSYMBOLS} / lines / ENDM / vwrap      (LocalWrappable: vwrap MACRO / lines / ENDM / vwrap)
 Wrap(ops) == <<"MACRO">> \o ops \o <<"ENDM", "CALL">>
 \* the collector, started behind the wrapper's MACRO line, ends the body exactly at the wrapper's ENDM
 WrapperCollectsExactly(ops) == BodyEnd(Wrap(ops), 2, 0) = Len(ops) + 2
